@@ -166,3 +166,106 @@ twin('C01', 'vote-handler-order', FSPY, 'FileStorage.tpc_vote',
 twin('C01', 'scan-status-test-split', FSPY, 'read_index',
      "if pos + (tl + 8) > file_size or status == 'c':",
      "if status == 'c' or pos + (tl + 8) > file_size:")
+
+# ---------------------------------------------------------------- C03
+CONNPY = 'ZODB/Connection.py'
+breaker('C03', 'fs-store-no-compare', 'C03.R1', FSPY, 'FileStorage.store',
+        '''                if oldserial != committed_tid:
+                    data = self.tryToResolveConflict(oid, committed_tid,
+                                                     oldserial, data)
+                    self._resolved.append(oid)
+''', '')
+breaker('C03', 'fs-store-less-than', 'C03.R1', FSPY, 'FileStorage.store',
+        'if oldserial != committed_tid:', 'if oldserial < committed_tid:')
+breaker('C03', 'fs-store-resolve-discarded', 'C03.R1', FSPY,
+        'FileStorage.store',
+        '''                    data = self.tryToResolveConflict(oid, committed_tid,
+                                                     oldserial, data)''',
+        '''                    self.tryToResolveConflict(oid, committed_tid,
+                                              oldserial, data)''')
+breaker('C03', 'fs-delete-no-raise', 'C03.R1', FSPY, 'FileStorage.deleteObject',
+        '''                raise ConflictError(
+                    oid=oid, serials=(committed_tid, oldserial))''',
+        '''                logger.warning("conflict on delete")''')
+breaker('C03', 'ms-store-conflict-only-newer', 'C03.R1', MSPY,
+        'MappingStorage.store',
+        'if serial != old_tid:', 'if serial > old_tid:')
+breaker('C03', 'ds-store-stage-original', 'C03.R1', DSPY, 'DemoStorage.store',
+        "self.changes.store(oid, old, rdata, '', transaction)",
+        "self.changes.store(oid, old, data, '', transaction)")
+breaker('C03', 'fs-store-existence-weakened', 'C03.R1', FSPY,
+        'FileStorage.store',
+        '''            committed_tid = None
+            if old:''', '''            committed_tid = None
+            if old and self._quota is None:''')
+breaker('C03', 'bs-begin-commit-lock-under-storage-lock', 'C03.R2', BSPY,
+        'BaseStorage.tpc_begin',
+        '''        self._commit_lock.acquire()
+
+        with self._lock:
+            self._transaction = transaction''',
+        '''        with self._lock:
+            self._commit_lock.acquire()
+            self._transaction = transaction''')
+breaker('C03', 'fs-store-releases-commit-lock', 'C03.R2', FSPY,
+        'FileStorage.store',
+        '''                raise FileStorageQuotaError(
+                    "The storage quota has been exceeded.")''',
+        '''                self._commit_lock.release()
+                raise FileStorageQuotaError(
+                    "The storage quota has been exceeded.")''')
+breaker('C03', 'commit-swallow-read-conflict', 'C03.R4', CONNPY,
+        'Connection.commit',
+        '''                self._cache.invalidate(oid)
+                raise''', '''                self._cache.invalidate(oid)''')
+breaker('C03', 'commit-no-readcurrent-loop', 'C03.R4', CONNPY,
+        'Connection.commit',
+        'for oid, serial in self._readCurrent.items():',
+        'for oid, serial in ():')
+breaker('C03', 'check-current-only-older', 'C03.R4', BSPY,
+        'checkCurrentSerialInTransaction',
+        'if committed_tid != serial:', 'if committed_tid < serial:')
+breaker('C03', 'store-objects-fresh-serial', 'C03.R5', CONNPY,
+        'Connection._store_objects',
+        's = self._storage.store(oid, serial, p, \'\', transaction)',
+        's = self._storage.store(oid, self._storage.getTid(oid) if serial != z64 else serial, p, \'\', transaction)')
+breaker('C03', 'store-objects-modified-after-store', 'C03.R6', CONNPY,
+        'Connection._store_objects',
+        '''            else:
+                self._modified.append(oid)
+
+            p = writer.serialize(obj)''',
+        '''            p = writer.serialize(obj)''')
+breaker('C03', 'store-objects-drop-dependency-in-savepoint', 'C03.R7', CONNPY,
+        'Connection._store_objects',
+        '''            if self._savepoint_storage is None:
+                self._readCurrent.pop(oid, None)''',
+        '''            self._readCurrent.pop(oid, None)''')
+twin('C03', 'fs-store-eq-inverted', FSPY, 'FileStorage.store',
+     '''                if oldserial != committed_tid:
+                    data = self.tryToResolveConflict(oid, committed_tid,
+                                                     oldserial, data)
+                    self._resolved.append(oid)''',
+     '''                if committed_tid == oldserial:
+                    pass
+                else:
+                    data = self.tryToResolveConflict(oid, committed_tid,
+                                                     oldserial, data)
+                    self._resolved.append(oid)''')
+twin('C03', 'ms-store-rename-local', MSPY, 'MappingStorage.store',
+     '''            old_tid = tid_data.maxKey()
+            if serial != old_tid:
+                raise ZODB.POSException.ConflictError(
+                    oid=oid, serials=(old_tid, serial), data=data)''',
+     '''            newest = tid_data.maxKey()
+            if newest != serial:
+                raise ZODB.POSException.ConflictError(
+                    oid=oid, serials=(newest, serial), data=data)''')
+twin('C03', 'store-objects-savepoint-test-inverted', CONNPY,
+     'Connection._store_objects',
+     '''            if self._savepoint_storage is None:
+                self._readCurrent.pop(oid, None)''',
+     '''            if self._savepoint_storage is not None:
+                pass
+            else:
+                self._readCurrent.pop(oid, None)''')
